@@ -230,6 +230,10 @@ def s_clip_out(v):
     numpy.clip(v, None, 2, out=v)
     return v, numpy.clip(v, 1, None)
 
+def s_atleast_2d(v, m):
+    a = numpy.atleast_2d(v)
+    return a, a.shape, a.T, numpy.atleast_2d(m)
+
 def s_varargs(a, b):
     def pack(first, *rest):
         return first, len(rest), rest
@@ -436,6 +440,7 @@ def inputs():
         "s_nan_compare": [(A(numpy.nan, 1),), (A(0, 1),)],
         "s_col_broadcast": [(numpy.array([[1., 4., 2.], [0., 3., 5.]]), A(1, 0, dt=int)), (numpy.array([[2., 1.]]), A(1, dt=int))],
         "s_varargs": [(1, 2)],
+        "s_atleast_2d": [(A(1, 2, 3), numpy.array([[1., 2.], [3., 4.]]))],
         "s_min_out": [(numpy.array([[1., 5., 2.]]), numpy.array([[3., 3., 3.], [0., 9., 1.]])), (A(1, 5, 2), numpy.array([[3., 3., 3.], [0., 9., 1.]]))],
         "s_clip_out": [(A(0, 3, 2, 7, dt=int),), (A(0.5, 3.5),)],
         "s_int_of_float": [(A(2.0, 2.7, -2.7),)],
